@@ -596,4 +596,199 @@ example : execute noDb (fun _ => some .str) (cmdline [116] [[97, 32, 39, 34, 9],
     .call [116] [[97, 32, 39, 34, 9], [], [160]] :=
   arg_unchanged_partial _ _ _ _ _ ⟨by decide, by decide⟩ rfl (by decide)
 
+/-! ### the quoting rule alone -/
+
+/-- `"` ↦ `\x22`, what `quote` does to a string holding both quote characters -/
+def escDq (a : Str) : Str := a.flatMap fun c => if c == 34 then [92, 120, 50, 50] else [c]
+
+/-- **unquote_quote.** For EVERY string that does not hold both quote characters (whitespace of any kind,
+    backslashes, one kind of quote, empty, unicode): `unquote (quote a) = a`. -/
+theorem unquote_quote (a : Str) (h : ¬ (a.contains 34 = true ∧ a.contains 39 = true)) : unquote (quote a) = a := by
+  rcases quote_cases a with ⟨hq, _, hall⟩ | ⟨_, hq⟩ | ⟨_, _, hq⟩ | ⟨h34, h39, _⟩
+  · rw [hq]; exact unquote_bare a hall
+  · rw [hq]; exact unquote_quoted 34 a (by decide)
+  · rw [hq]; exact unquote_quoted 39 a (by decide)
+  · exact absurd ⟨h34, h39⟩ h
+
+/-- with both quote characters (the guard of F-C45a) the double quotes come back as the text `\x22` -/
+theorem unquote_quote_both (a : Str) (h34 : a.contains 34 = true) (h39 : a.contains 39 = true) :
+    unquote (quote a) = escDq a := by
+  rcases quote_cases a with ⟨_, _, hall⟩ | ⟨h, _⟩ | ⟨_, h, _⟩ | ⟨_, _, hq⟩
+  · -- a bare word holds no quote character
+    exfalso
+    have hm : 34 ∈ a := by simpa using h34
+    have := (List.all_eq_true.mp hall) 34 hm
+    revert this; decide
+  · rw [h] at h34; cases h34
+  · rw [h] at h39; cases h39
+  · rw [hq]; exact unquote_quoted 34 _ (by decide)
+
+/-- **str_unescape_unquote_quote.** For EVERY backslash-free string (both quote characters allowed) the `str`
+    conversion of the unquoted token gives the string back, with any Unicode name database. -/
+theorem str_unescape_unquote_quote (db : UniDb) (a : Str) (h : a.contains 92 = false) :
+    strParse db (unquote (quote a)) = some a :=
+  deliver_ok db .str a (by simp only [argOk, h]; rfl)
+
+/-! ### every command signature shape -/
+
+private theorem collect_eq_some (l : List (Option Str)) (vs : List Str) : collect l = some vs ↔ l = vs.map some := by
+  induction l generalizing vs with
+  | nil => cases vs <;> simp [collect]
+  | cons a r ih =>
+    cases a with
+    | none => cases vs <;> simp [collect]
+    | some x =>
+      cases vs with
+      | nil => cases hc : collect r <;> simp [collect, hc]
+      | cons v vs =>
+        simp only [collect, List.map_cons, List.cons.injEq, Option.some.injEq]
+        cases hc : collect r with
+        | none =>
+          simp only [Option.map_none]
+          constructor
+          · intro h; cases h
+          · intro ⟨_, h2⟩; rw [(ih vs).mpr h2] at hc; cases hc
+        | some w =>
+          simp only [Option.map_some, Option.some.injEq, List.cons.injEq]
+          constructor
+          · intro ⟨h1, h2⟩; exact ⟨h1, (ih vs).mp (by rw [hc, h2])⟩
+          · intro ⟨h1, h2⟩; rw [(ih vs).mpr h2] at hc; exact ⟨h1, (Option.some.inj hc).symm⟩
+
+/-- `bind`: exactly one type per argument, the positional ones first, then the type of `*rest` -/
+theorem bindTys_spec (sig : Sig) (n : Nat) (tys : List ArgTy) (h : bindTys sig n = some tys) :
+    tys.length = n ∧ ∀ i, i < n → tys[i]? = tyAt sig i := by
+  unfold bindTys at h
+  split at h
+  · cases h
+  · rename_i hlt
+    have hge : sig.params.length ≤ n := Nat.le_of_not_lt hlt
+    cases hv : sig.varargs with
+    | none =>
+      simp only [hv] at h
+      split at h
+      · rename_i he
+        have he' : n = sig.params.length := by simpa using he
+        cases h
+        refine ⟨he'.symm, ?_⟩
+        intro i hi
+        have : i < sig.params.length := he' ▸ hi
+        simp [tyAt, List.getElem?_eq_getElem this]
+      · cases h
+    | some t =>
+      simp only [hv, Option.some.injEq] at h
+      subst h
+      refine ⟨by simp; omega, ?_⟩
+      intro i hi
+      by_cases hp : i < sig.params.length
+      · simp [tyAt, List.getElem?_append_left hp, List.getElem?_eq_getElem hp]
+      · have hp' : sig.params.length ≤ i := Nat.le_of_not_lt hp
+        have hnone : sig.params[i]? = none := List.getElem?_eq_none hp'
+        simp only [tyAt, hnone, hv]
+        rw [List.getElem?_append_right hp']
+        simp [List.getElem?_replicate]
+        omega
+
+/-- **execute_delivers_typed_tokens.** For EVERY line, name database, command table and signature shape (fixed
+    parameters of mixed types, `*rest`, none): if `execute` runs a command, then the line has a first argument token
+    whose unquoted text is the command name, the signature binds as many types as there are further argument tokens
+    (the positional types, then the `*rest` type), and the values handed to the command are — position by position —
+    exactly the typed conversions of the unquoted tokens. Nothing else reaches the command. -/
+theorem execute_delivers_typed_tokens (db : UniDb) (cmds : Str → Option Sig) (line name : Str) (vals : List Str)
+    (h : executeSig db cmds line = .call name vals) :
+    ∃ tok toks sig tys, argTokens line = tok :: toks ∧ name = unquote tok ∧ cmds name = some sig ∧
+      bindTys sig toks.length = some tys ∧ vals.length = toks.length ∧
+      List.zipWith (parseArg db) tys (toks.map unquote) = vals.map some ∧
+      ∀ i, i < toks.length → tys[i]? = tyAt sig i := by
+  unfold executeSig at h
+  cases ht : argTokens line with
+  | nil => simp [ht] at h
+  | cons tok toks =>
+    simp only [ht, List.map_cons] at h
+    cases hc : cmds (unquote tok) with
+    | none => simp [hc] at h
+    | some sig =>
+      simp only [hc, List.length_map] at h
+      cases hb : bindTys sig toks.length with
+      | none => simp [hb] at h
+      | some tys =>
+        simp only [hb] at h
+        cases hcol : collect (List.zipWith (parseArg db) tys (toks.map unquote)) with
+        | none => simp [hcol] at h
+        | some as =>
+          simp only [hcol, Exec.call.injEq] at h
+          obtain ⟨hn, hv⟩ := h
+          subst hv
+          have hz := (collect_eq_some _ _).mp hcol
+          have hspec := bindTys_spec sig toks.length tys hb
+          refine ⟨tok, toks, sig, tys, rfl, hn.symm, hn ▸ hc, hb, ?_, hz, hspec.2⟩
+          have := congrArg List.length hz
+          simp only [List.length_zipWith, List.length_map, hspec.1, Nat.min_self] at this
+          exact this.symm
+
+/-- the varargs-only commands of the theorems above are one signature shape among these -/
+theorem executeSig_varargs (db : UniDb) (cmds : Str → Option ArgTy) (line : Str) :
+    executeSig db (fun n => (cmds n).map fun t => ⟨[], some t⟩) line = execute db cmds line := by
+  unfold executeSig execute
+  cases (argTokens line).map unquote with
+  | nil => rfl
+  | cons name args =>
+    simp only
+    cases cmds name with
+    | none => rfl
+    | some ty =>
+      simp only [Option.map_some, bindTys, List.length_nil, Nat.not_lt_zero, if_false, List.nil_append, Nat.sub_zero]
+      have : List.zipWith (parseArg db) (List.replicate args.length ty) args = args.map (parseArg db ty) := by
+        induction args with
+        | nil => rfl
+        | cons a r ih => simp [List.replicate_succ, ih]
+      rw [this]
+
+/-- every argument satisfies the guard of the parameter type it meets -/
+def argsOk : List ArgTy → List Str → Bool
+  | [], [] => true
+  | t :: ts, a :: as => argOk t a && argsOk ts as
+  | _, _ => false
+
+private theorem collect_zipWith (db : UniDb) : ∀ (tys : List ArgTy) (args : List Str), argsOk tys args = true →
+    collect (List.zipWith (parseArg db) tys (args.map (unquote ∘ quote))) = some args := by
+  intro tys
+  induction tys with
+  | nil => intro args h; cases args with
+    | nil => rfl
+    | cons a r => simp [argsOk] at h
+  | cons t ts ih =>
+    intro args h
+    cases args with
+    | nil => simp [argsOk] at h
+    | cons a r =>
+      simp only [argsOk, Bool.and_eq_true] at h
+      simp only [List.map_cons, List.zipWith_cons_cons, Function.comp, deliver_ok db t a h.1, collect]
+      rw [ih r h.2]; rfl
+
+/-- **arg_unchanged_sig (partial).** `arg_unchanged_partial` for every signature shape: if the command binds the
+    arguments with types `tys` and every argument satisfies the guard of ITS parameter's type (verbatim: not both
+    quote characters; `str`: no backslash), the command is called with exactly the given arguments. -/
+theorem arg_unchanged_sig_partial (db : UniDb) (cmds : Str → Option Sig) (cmd : Str) (sig : Sig) (tys : List ArgTy)
+    (args : List Str) (hc : bareWord cmd) (hcmd : cmds cmd = some sig) (hb : bindTys sig args.length = some tys)
+    (hg : argsOk tys args = true) :
+    executeSig db cmds (cmdline cmd args) = .call cmd args := by
+  unfold executeSig
+  rw [argTokens_cmdline cmd args hc]
+  simp only [List.map_cons, unquote_bare cmd hc.2, hcmd, List.map_map, List.length_map, hb]
+  rw [collect_zipWith db tys args hg]
+
+/-- a call that does not bind is refused before anything is converted, whatever the arguments are -/
+theorem arity_mismatch_runs_nothing (db : UniDb) (cmds : Str → Option Sig) (cmd : Str) (sig : Sig) (args : List Str)
+    (hc : bareWord cmd) (hcmd : cmds cmd = some sig) (hb : bindTys sig args.length = none) :
+    executeSig db cmds (cmdline cmd args) = .arity := by
+  unfold executeSig
+  rw [argTokens_cmdline cmd args hc]
+  simp only [List.map_cons, unquote_bare cmd hc.2, hcmd, List.map_map, List.length_map, hb]
+
+example : executeSig noDb (fun _ => some ⟨[.str, .verbatim], none⟩) (cmdline [116] [[39, 34, 32], [92, 110]]) =
+    .call [116] [[39, 34, 32], [92, 110]] :=
+  arg_unchanged_sig_partial _ _ _ ⟨[.str, .verbatim], none⟩ [.str, .verbatim] _ ⟨by decide, by decide⟩ rfl rfl
+    (by decide)
+example : executeSig noDb (fun _ => some ⟨[.str], none⟩) (cmdline [116] [[97], [98]]) = .arity := by decide
+
 end MitmVerif.Props.C45
